@@ -28,13 +28,18 @@ def ProperAncestor (q p : Path) : Prop := q ∈ chain p ∧ q ≠ p
 
 instance (q p : Path) : Decidable (ProperAncestor q p) := inferInstanceAs (Decidable (_ ∧ _))
 
-/-- component-wise containment: `p` is `a` itself or lies below it, without climbing (`..`)
-out of it.  Both are arbitrary path strings. -/
-def Within (a p : Path) : Prop :=
-  isRooted a = isRooted p ∧ (comps a).isPrefixOf (comps p) = true ∧
-    dotdot ∉ (comps p).drop (comps a).length
+/-- component-wise containment on cleaned forms: same rootedness, `a`'s components are a prefix
+of `p`'s, and what follows does not climb (`..`). -/
+def WithinC (a p : CPath) : Prop :=
+  a.rooted = p.rooted ∧ a.comps.isPrefixOf p.comps = true ∧ dotdot ∉ p.comps.drop a.comps.length
 
-instance (a p : Path) : Decidable (Within a p) := inferInstanceAs (Decidable (_ ∧ _ ∧ _))
+instance (a p : CPath) : Decidable (WithinC a p) := inferInstanceAs (Decidable (_ ∧ _ ∧ _))
+
+/-- `p` is `a` itself or lies below it, component-wise after lexical cleaning (never merely as a
+string prefix).  Both are arbitrary path strings. -/
+def Within (a p : Path) : Prop := WithinC (cleanC a) (cleanC p)
+
+instance (a p : Path) : Decidable (Within a p) := inferInstanceAs (Decidable (WithinC _ _))
 
 /-- a name that can be a directory entry -/
 def NameOK (n : Name) : Prop := n ≠ [] ∧ '/' ∉ n
